@@ -17,6 +17,7 @@ answer from what an earlier, dead object of another site left behind.
 
 usage: python -m vt.harness.c12_impl run <seed> <shard> <ngroups> <model_exe> [<corpus.json>]
        python -m vt.harness.c12_impl lifetimes <seed> <shard> <njobs>
+       python -m vt.harness.c12_impl runops      stdin: {"ops": [...], "first_only": bool} -> problems (address space pinned)
        python -m vt.harness.c12_impl replay      stdin: {"lang","dns","title"[,"history","inst","expect"]} -> oracle verdict
        python -m vt.harness.c12_impl minimise    stdin: same object -> smallest history / title that still fails
 stdout: one JSON object (summary, monitor hits, disagreements, samples).
@@ -481,23 +482,6 @@ def pin_address_space():
     os.execve(sys.executable, [sys.executable, "-m", "vt.harness.c12_impl"] + sys.argv[1:], env)
 
 
-def judge_ops(ops, sites, tries=8):
-    """replay of a lifetime history: run it in a forked child of this (fresh) process; a history that does not fail there is
-    tried again with a few small dicts allocated (kept / freed) first - the failing answer of a history found in another process
-    can depend on what that process had allocated before.  The oracle is the same in every try, so whatever fails is a real
-    wrong answer of the real code."""
-    for k in range(tries):
-        def go(k=k):
-            keep = [{} for _ in range(k)]
-            if k % 2:
-                del keep[:]
-            return run_ops(ops, sites, first_only=True)[0]
-        r = in_child(go)
-        if r:
-            return r, k
-    return [], tries
-
-
 def run_ops(ops, sites, first_only=False):
     """execute the ops in THIS process; the monitor judges every lookup against the site's own reference (c12_ref.canon; the
     shape conditions; where the title is outside the reference grammar, against a handler on the bundled, never-dying
@@ -563,20 +547,39 @@ def run_ops(ops, sites, first_only=False):
     return probs, stats
 
 
+def runops_subprocess(ops, first_only):
+    """run a lifetime history in a process of its own whose whole life is: imports, read the history, run it.  Discovery,
+    minimisation and replay all go through here, so a history behaves the same each time (address space pinned)"""
+    p = subprocess.run([sys.executable, "-m", "vt.harness.c12_impl", "runops"], input=json.dumps({"ops": ops, "first_only": first_only}),
+                       capture_output=True, text=True)
+    lines = [ln for ln in p.stdout.splitlines() if ln.startswith("{")]
+    if p.returncode != 0 or not lines:
+        raise RuntimeError("runops failed rc=%s: %s" % (p.returncode, (p.stdout + p.stderr)[-800:]))
+    return json.loads(lines[-1])
+
+
+def runops():
+    pin_address_space()
+    c = json.load(sys.stdin)
+    probs, stats = run_ops(c["ops"], ref_sites(), first_only=bool(c.get("first_only")))
+    print(json.dumps({"problems": probs, "stats": stats}))
+
+
 def lifetimes(seed, shard, njobs):
     sites = ref_sites()
     rng = random.Random(seed * 6007 + shard * 15485863 + 29)
     gen = c12_gen.Gen(rng, sites)
     ops = lifetime_ops(rng, gen, sites, njobs)
-    probs, stats = run_ops(ops, sites)
+    r = runops_subprocess(ops, False)
+    probs, stats = r["problems"], r["stats"]
     digests = set()
     for op in ops:
         if op[0] == "use":
             digests.add(hashlib.blake2b(repr(("life", op[3], op[4])).encode("utf8", "replace"), digest_size=8).hexdigest())
     hits = []
-    for i, kind, detail, lang, api, title, dns in probs[:3]:
+    for i, kind, detail, lang, api, title, dns in probs[:1]:
         hits.append({"kind": kind, "detail": detail, "lang": lang, "dns": dns, "title": title, "api": api, "group": "lifetimes",
-                     "ops": ops[:i + 1], "expect": None, "history": [], "inst": 0, "calls": []})
+                     "ops": ops, "op_index": i, "expect": None, "history": [], "inst": 0, "calls": []})
     return {"jobs": njobs, "ops": len(ops), "stats": stats, "problems": len(probs), "hits": hits, "digests": sorted(digests)}
 
 
@@ -591,75 +594,74 @@ def jobs_of(ops):
     return units
 
 
-def minimise_ops(c, budget=160):
-    """shortest sequence of jobs that still makes the monitor fire on its LAST lookup's site (each candidate runs in a forked
-    child of this fresh process); then fewer lookups per job"""
-    sites = ref_sites()
+def minimise_ops(c, budget=100, par=8):
+    """shorter lifetime history that still ends in a wrong answer.  Every candidate is run as a history of its own in a fresh
+    process (runops); delta debugging over whole jobs, all candidates of one level probed in parallel; then single lookups."""
+    import concurrent.futures
+    used = [0]
 
-    def attempt(ops):
-        return in_child(lambda: run_ops(ops, sites, first_only=True)[0])
+    def probe(ops):
+        used[0] += 1
+        r = runops_subprocess(ops, True)["problems"]
+        return r[0] if r else None
 
-    def verified(ops):
-        """through the real replay entry point (fresh process)"""
-        p = subprocess.run([sys.executable, "-m", "vt.harness.c12_impl", "replay", "ops"], input=json.dumps({"ops": ops}),
-                           capture_output=True, text=True)
-        try:
-            return bool(json.loads([ln for ln in p.stdout.splitlines() if ln.startswith("{")][-1])["problems"])
-        except Exception:  # noqa: BLE001
-            return False
-    calls = [0]
+    def settle(ops):
+        """a failing history cut after its first wrong answer (cutting changes the input, so probe again)"""
+        best = (None, None)
+        for _ in range(4):
+            pr = probe(ops)
+            if pr is None:
+                return best        # the cut history behaves differently: keep the longer one that is known to fail
+            best = (ops, pr)
+            if pr[0] == len(ops) - 1:
+                return best
+            ops = ops[:pr[0] + 1]
+        return best
 
-    def bad(ops):
-        calls[0] += 1
-        r = attempt(ops)
-        return r if r and r[0][0] == len(ops) - 1 else None      # the LAST op must be the failing lookup
-    ops = c["ops"]
-    first = attempt(ops)
-    if not first:
-        first, _k = judge_ops(ops, sites)
-    if not first:
+    cur, prob = settle(c["ops"])
+    if cur is None:
         return {"reproduced": False}
-    ops = ops[:first[0][0] + 1]
-    units = jobs_of(ops)
-    last = units[-1]
-    # the failing lookup alone in its job
-    cand_last = [last[0], last[-1]] if last[0][0] == "load" else last
-    head = units[:-1]
-    if bad([o for u in head for o in u] + cand_last):
-        last = cand_last
-    n = 2
-    while head and calls[0] < budget:
-        chunk = max(1, len(head) // n)
-        removed = False
-        for i in range(0, len(head), chunk):
-            cand = head[:i] + head[i + chunk:]
-            if calls[0] >= budget:
+    ex = concurrent.futures.ThreadPoolExecutor(max_workers=par)
+    try:
+        n = 2
+        while used[0] < budget:
+            units = jobs_of(cur)
+            head, last = units[:-1], units[-1]
+            if not head:
                 break
-            if bad([o for u in cand for o in u] + last):
-                head, removed = cand, True
+            chunk = max(1, len(head) // n)
+            cands = []
+            for i in range(0, len(head), chunk):
+                cands.append([o for u in head[:i] + head[i + chunk:] for o in u] + last)
+            if last[0][0] == "load" and len(last) > 2:
+                cands.append([o for u in head for o in u] + [last[0], last[-1]])
+            found = None
+            for cand, res in zip(cands, ex.map(settle, cands)):
+                if res[0] is not None and len(res[0]) < len(cur) and found is None:
+                    found = res
+            if found:
+                cur, prob = found
                 n = max(n - 1, 2)
+            elif chunk == 1:
                 break
-        if not removed:
-            if chunk == 1:
-                break
-            n = min(len(head), n * 2)
-    # inside the remaining jobs: drop single lookups / drops that are not needed
-    flat = [o for u in head for o in u]
-    i = 0
-    while i < len(flat) and calls[0] < budget + 60:
-        if flat[i][0] != "load":
-            cand = flat[:i] + flat[i + 1:]
-            if bad(cand + last):
-                flat = cand
-                continue
-        i += 1
-    out_ops = flat + last
-    final = attempt(out_ops)
-    if not final or not verified(out_ops):
-        out_ops, final = ops, first
-    i, kind, detail, lang, api, title, dns = final[0]
-    return {"reproduced": True, "ops": out_ops, "problems": [[kind, detail]], "lang": lang, "dns": dns, "title": title, "api": api,
-            "history": [], "inst": 0, "calls": [], "expect": None, "attempts": calls[0]}
+            else:
+                n = min(len(head), n * 2)
+        # single lookups / drops inside the remaining jobs
+        changed = True
+        while changed and used[0] < budget + 60:
+            changed = False
+            idx = [i for i, o in enumerate(cur[:-1]) if o[0] != "load"]
+            cands = [cur[:i] + cur[i + 1:] for i in idx]
+            for cand, res in zip(cands, ex.map(settle, cands)):
+                if res[0] is not None and len(res[0]) < len(cur):
+                    cur, prob = res
+                    changed = True
+                    break
+    finally:
+        ex.shutdown()
+    i, kind, detail, lang, api, title, dns = prob
+    return {"reproduced": True, "ops": cur, "problems": [[kind, detail]], "lang": lang, "dns": dns, "title": title, "api": api,
+            "history": [], "inst": 0, "calls": [], "expect": None, "attempts": used[0]}
 
 
 # ---------------------------------------------------------------------------------------- replay / minimise
@@ -924,9 +926,9 @@ def minimise(c):
 
 def replay():
     c = json.load(sys.stdin)
-    if c.get("ops"):
-        probs, k = judge_ops(c["ops"], ref_sites())
-        print(json.dumps({"result": {"ops": len(c["ops"]), "perturbation": k}, "problems": [[p[1], p[2]] for p in probs]}))
+    if c.get("ops") is not None:
+        probs = runops_subprocess(c["ops"], True)["problems"]
+        print(json.dumps({"result": {"ops": len(c["ops"])}, "problems": [[p[1], p[2]] for p in probs]}))
         return
     res, probs, _ = judge(c)
     print(json.dumps({"result": res, "problems": [list(p) for p in probs]}))
@@ -937,14 +939,11 @@ if __name__ == "__main__":
         out = run(int(sys.argv[2]), int(sys.argv[3]), int(sys.argv[4]), sys.argv[5], sys.argv[6] if len(sys.argv) > 6 else None)
         sys.stdout.write(json.dumps(out) + "\n")
     elif sys.argv[1] == "replay":
-        if len(sys.argv) > 2 and sys.argv[2] == "ops":
-            pin_address_space()
         replay()
+    elif sys.argv[1] == "runops":
+        runops()
     elif sys.argv[1] == "lifetimes":
-        pin_address_space()
         sys.stdout.write(json.dumps(lifetimes(int(sys.argv[2]), int(sys.argv[3]), int(sys.argv[4]))) + "\n")
     elif sys.argv[1] == "minimise":
-        if len(sys.argv) > 2 and sys.argv[2] == "ops":
-            pin_address_space()
         obj = json.load(sys.stdin)
         print(json.dumps(minimise_ops(obj) if obj.get("ops") else minimise(obj)))
